@@ -54,6 +54,36 @@
 #include <fcppt/variant/object_impl.hpp>
 #include <fcppt/variant/to_optional.hpp>
 
+#include <fcppt/make_ref.hpp>
+#include <fcppt/reference_impl.hpp>
+#include <fcppt/cast/dynamic_fun.hpp>
+#include <fcppt/either/construct.hpp>
+#include <fcppt/either/error.hpp>
+#include <fcppt/either/error_from_optional.hpp>
+#include <fcppt/either/make_failure.hpp>
+#include <fcppt/either/make_success.hpp>
+#include <fcppt/either/no_error.hpp>
+#include <fcppt/either/output.hpp>
+#include <fcppt/either/sequence_error.hpp>
+#include <fcppt/either/to_exception.hpp>
+#include <fcppt/monad/chain.hpp>
+#include <fcppt/monad/do.hpp>
+#include <fcppt/monad/return.hpp>
+#include <fcppt/mpl/list/object.hpp>
+#include <fcppt/optional/assign.hpp>
+#include <fcppt/optional/copy_value.hpp>
+#include <fcppt/optional/deref.hpp>
+#include <fcppt/optional/from_pointer.hpp>
+#include <fcppt/optional/make.hpp>
+#include <fcppt/optional/nothing.hpp>
+#include <fcppt/optional/output.hpp>
+#include <fcppt/optional/reference.hpp>
+#include <fcppt/optional/to_exception.hpp>
+#include <fcppt/optional/to_pointer.hpp>
+#include <fcppt/variant/dynamic_cast.hpp>
+#include <fcppt/variant/output.hpp>
+#include <fcppt/variant/to_optional_ref.hpp>
+#include <sstream>
 #include <array>
 #include <cstdint>
 #include <functional>
@@ -91,6 +121,8 @@ struct Alt
   friend bool operator==(Alt const &a, Alt const &b) { return a.v == b.v; }
   friend bool operator!=(Alt const &a, Alt const &b) { return a.v != b.v; }
   friend bool operator<(Alt const &a, Alt const &b) { return a.v < b.v; }
+  template <typename Ch, typename Tr>
+  friend std::basic_ostream<Ch, Tr> &operator<<(std::basic_ostream<Ch, Tr> &s, Alt const &a) { return s << a.v; }
 };
 
 using Val = Alt<0>;
@@ -103,6 +135,9 @@ using OOD = fcppt::optional::object<OD>;
 using ED = fcppt::either::object<Fv, Val>;
 using EED = fcppt::either::object<Fv, ED>;
 using VD = fcppt::variant::object<A1, A2, A3>;
+using A4 = Alt<4>;
+using VD4 = fcppt::variant::object<A1, A2, A3, A4>;
+using UE = fcppt::either::error<Fv>; // either<Fv, unit>
 struct Exc
 {
   int e;
@@ -163,6 +198,16 @@ std::string js(VD const &v)
   default: return js_tagged(v.get_unsafe<A3>());
   }
 }
+std::string js(VD4 const &v)
+{
+  switch (v.type_index())
+  {
+  case 0: return js_tagged(v.get_unsafe<A1>());
+  case 1: return js_tagged(v.get_unsafe<A2>());
+  case 2: return js_tagged(v.get_unsafe<A3>());
+  default: return js_tagged(v.get_unsafe<A4>());
+  }
+}
 std::string js(Outcome const &o)
 {
   return std::string{"{\"t\":\""} + (o.throws ? "throw" : "ret") + "\",\"v\":" + std::to_string(o.v) + "}";
@@ -216,6 +261,27 @@ struct codec<VD>
     default: return VD{A3(c % N)};
     }
   }
+};
+template <>
+struct codec<VD4>
+{
+  static constexpr int count = 4 * N;
+  static VD4 dec(int c)
+  {
+    switch (c / N)
+    {
+    case 0: return VD4{A1(c % N)};
+    case 1: return VD4{A2(c % N)};
+    case 2: return VD4{A3(c % N)};
+    default: return VD4{A4(c % N)};
+    }
+  }
+};
+template <>
+struct codec<fcppt::unit>
+{
+  static constexpr int count = 1;
+  static fcppt::unit dec(int) { return fcppt::unit{}; }
 };
 template <>
 struct codec<Outcome>
@@ -779,6 +845,20 @@ void drive_either(Sizes const &sz)
           std::vector<ED> copy(xs);
           return fcppt::either::sequence<std::vector<Val>>(std::move(copy));
         });
+      // lvalue categories: only if the tree under test accepts them
+      if (wanted("eit_sequence"))
+        [&](auto const &cxs)
+        {
+          if constexpr (requires { fcppt::either::sequence<std::vector<Val>>(cxs); })
+          {
+            record("eit_sequence", "c", js(xs), "", [&] { return fcppt::either::sequence<std::vector<Val>>(cxs); });
+            record("eit_sequence", "l", js(xs), "", [&]
+            {
+              std::remove_cvref_t<decltype(cxs)> copy(cxs);
+              return fcppt::either::sequence<std::vector<Val>>(copy);
+            });
+          }
+        }(xs);
       if (wanted("eit_first_success"))
       {
         using function_type = fcppt::function<ED()>;
@@ -1071,6 +1151,507 @@ void drive_variant(Sizes const &sz)
       });
     });
 }
+
+// ------------------------------------------------------------------ extension round
+// class lattice for variant::dynamic_cast_: ids 1, 2 are the possible target types
+struct base
+{
+  base() = default;
+  base(base const &) = delete;
+  base &operator=(base const &) = delete;
+  virtual ~base() = default;
+};
+struct d1 : virtual base {};
+struct d2 : virtual base {};
+struct d3 : virtual base {};
+struct d1child : d1 {};
+struct d12 : d1, d2 {};
+
+template <typename S>
+std::string text_of(S const &s) { return vj::cps(s); }
+
+// outcome of a call that returns a value or throws Exc
+template <typename Call>
+std::string outcome_js(Call const &call)
+{
+  try
+  {
+    auto const r = call();
+    return "{\"t\":\"ret\",\"v\":" + js(r) + "}";
+  }
+  catch (Exc const &e)
+  {
+    return "{\"t\":\"throw\",\"v\":" + std::to_string(e.e) + "}";
+  }
+}
+// a record whose result is produced as JSON text by the body itself
+template <typename Body>
+void record_raw(char const *f, std::string const &cat, std::string const &args, std::string const &extra, Body const &body)
+{
+  g_calls.clear();
+  std::string pre = "{\"f\":\"";
+  pre += f;
+  pre += "\",\"cat\":\"" + cat + "\",\"a\":[" + args + "]" + extra;
+  vj::begin_call(pre);
+  std::string const res = body();
+  vj::end_call(",\"res\":" + res + ",\"calls\":[" + g_calls + "]}");
+  ++g_records;
+}
+std::string store_js(std::array<Val, N> const &cells)
+{
+  std::string s = "[";
+  for (int i = 0; i < N; ++i) s += (i ? "," : "") + js(cells[static_cast<std::size_t>(i)]);
+  return s + "]";
+}
+using oref = fcppt::optional::reference<Val>;
+std::string ref_js(oref const &o, std::array<Val, N> const &cells)
+{
+  if (!o.has_value()) return "{\"t\":\"none\"}";
+  return "{\"t\":\"some\",\"v\":{\"ref\":" + std::to_string((&o.get_unsafe().get() - cells.data()) + 1) + "}}";
+}
+
+template <typename V>
+void drive_variant_n(char const *suffix_cat)
+{
+  (void)suffix_cat;
+}
+
+void drive_ext(Sizes const &sz)
+{
+  // ---- pointers and references over a store of N cells
+  for (long st = 0; st < ipow(N, N); ++st)
+  {
+    std::vector<int> const cs{digits(st, N, N)};
+    auto const fresh = [&cs] { return std::array<Val, N>{Val(cs[0]), Val(cs[1]), Val(cs[2])}; };
+    std::string const stj = ",\"st\":[" + std::to_string(cs[0]) + "," + std::to_string(cs[1]) + "," + std::to_string(cs[2]) + "]";
+    for (int p = 0; p <= N; ++p)
+    {
+      std::array<Val, N> cells{fresh()};
+      Val *const ptr = p == 0 ? nullptr : &cells[static_cast<std::size_t>(p - 1)];
+      oref const o{p == 0 ? oref{} : oref{fcppt::make_ref(cells[static_cast<std::size_t>(p - 1)])}};
+      std::string const oj = ref_js(o, cells);
+      if (st == 0)
+      {
+        if (wanted("opt_from_pointer"))
+          record_raw("opt_from_pointer", "", std::to_string(p), "", [&] { return ref_js(fcppt::optional::from_pointer(ptr), cells); });
+        if (wanted("opt_to_pointer"))
+          record_raw("opt_to_pointer", "", oj, "", [&]
+          {
+            Val *const r = fcppt::optional::to_pointer(o);
+            return std::to_string(r == nullptr ? 0 : (r - cells.data()) + 1);
+          });
+        if (wanted("opt_deref"))
+        {
+          using optr = fcppt::optional::object<Val *>;
+          optr const op{p == 0 ? optr{} : optr{ptr}};
+          record_raw("opt_deref", "", p == 0 ? std::string{"{\"t\":\"none\"}"} : "{\"t\":\"some\",\"v\":" + std::to_string(p) + "}", "",
+                     [&] { return ref_js(fcppt::optional::deref(op), cells); });
+        }
+      }
+      if (wanted("opt_copy_value"))
+        record("opt_copy_value", "", oj, stj, [&] { return fcppt::optional::copy_value(o); });
+      if (wanted("opt_ref_write"))
+        for (int y = 0; y < N; ++y)
+        {
+          std::array<Val, N> cells2{fresh()};
+          oref const o2{p == 0 ? oref{} : oref{fcppt::make_ref(cells2[static_cast<std::size_t>(p - 1)])}};
+          oref const alias{o2}; // a copy of the optional reference refers to the same cell
+          record_raw("opt_ref_write", "", oj, stj + ex_d<Val>(y), [&]
+          {
+            fcppt::optional::maybe_void(alias, [y](fcppt::reference<Val> const r) { r.get() = Val(y); });
+            return store_js(cells2);
+          });
+        }
+    }
+  }
+  // ---- value semantics, assign, nothing, make, to_exception, output
+  for_values<OD>([&](OD const &o)
+  {
+    for (int y = 0; y < N; ++y)
+    {
+      if (wanted("opt_value_copy_write"))
+        record_raw("opt_value_copy_write", "", js(o), ex_d<Val>(y), [&]
+        {
+          OD copy{o};
+          fcppt::optional::maybe_void(copy, [y](Val &v) { v = Val(y); });
+          return "[" + js(o) + "," + js(copy) + "]";
+        });
+      if (wanted("opt_assign"))
+        for (int x = 0; x < N; ++x)
+          // assign's requires-clause compares Element with remove_cv_t<Arg> (a reference type for
+          // lvalues), so only an rvalue argument is accepted
+          for (char const *c = "r"; *c; ++c)
+            record_raw("opt_assign", std::string(1, *c), js(o), ",\"x\":" + std::to_string(x) + ex_d<Val>(y), [&]
+            {
+              OD target{o};
+              Val arg(x);
+              Val &r = fcppt::optional::assign(target, std::move(arg));
+              std::string const seen = js(r);
+              r = Val(y);
+              return "{\"ret\":" + seen + ",\"opt\":" + js(target) + "}";
+            });
+      if (wanted("opt_to_exception"))
+        for (char const *c = cats3; *c; ++c)
+          record_raw("opt_to_exception", std::string(1, *c), js(o), ex_d<Val>(y), [&]
+          {
+            return outcome_js([&]
+            {
+              return with_cat(*c, o, [&](auto &&a) -> Val
+              {
+                return fcppt::optional::to_exception(FWD(a), [y]
+                {
+                  log_call("mk", 0, "");
+                  return Exc{y};
+                });
+              });
+            });
+          });
+    }
+    if (wanted("opt_output"))
+    {
+      record_raw("opt_output", "char", js(o), "", [&]
+      {
+        std::ostringstream s;
+        s << o;
+        return text_of(s.str());
+      });
+      record_raw("opt_output", "wchar_t", js(o), "", [&]
+      {
+        std::wostringstream s;
+        s << o;
+        return text_of(s.str());
+      });
+    }
+  });
+  if (wanted("optopt_output"))
+    for_values<OOD>([&](OOD const &o)
+    {
+      record_raw("optopt_output", "char", js(o), "", [&]
+      {
+        std::ostringstream s;
+        s << o;
+        return text_of(s.str());
+      });
+    });
+  if (wanted("opt_nothing"))
+  {
+    record("opt_nothing", "", "", "", [] { OD const o = fcppt::optional::nothing{}; return o; });
+    record("opt_nothing", "", "", "", [] { OOD const o = fcppt::optional::nothing{}; return o; });
+  }
+  for (int x = 0; x < N; ++x)
+  {
+    for (char const *c = "cr"; *c; ++c)
+    {
+      Val arg(x);
+      if (wanted("opt_make"))
+        record("opt_make", std::string(1, *c), std::to_string(x), "", [&] { Val a(arg); return *c == 'c' ? fcppt::optional::make(std::as_const(a)) : fcppt::optional::make(std::move(a)); });
+      if (wanted("eit_make_success"))
+        record("eit_make_success", std::string(1, *c), std::to_string(x), "", [&] { Val a(arg); return *c == 'c' ? fcppt::either::make_success<Fv>(std::as_const(a)) : fcppt::either::make_success<Fv>(std::move(a)); });
+      if (wanted("eit_make_failure"))
+        record("eit_make_failure", std::string(1, *c), std::to_string(x), "", [&] { Fv a(x); return *c == 'c' ? fcppt::either::make_failure<Val>(std::as_const(a)) : fcppt::either::make_failure<Val>(std::move(a)); });
+      if (wanted("monad_return_opt"))
+        // monad::instance<...>::return_ constrains Value (not remove_cvref_t<Value>) to be an object
+        // type, so only rvalues are accepted
+        record("monad_return_opt", "r", std::to_string(x), "", [&] { Val a(arg); return fcppt::monad::return_<OD>(std::move(a)); });
+      if (wanted("monad_return_eit"))
+        record("monad_return_eit", "r", std::to_string(x), "", [&] { Val a(arg); return fcppt::monad::return_<ED>(std::move(a)); });
+    }
+    if (wanted("eit_construct"))
+      for (int y = 0; y < N; ++y)
+        for (int b = 0; b < 2; ++b)
+          record("eit_construct", "", js(b != 0), ",\"x\":" + std::to_string(x) + ex_d<Fv>(y),
+                 [&] { return fcppt::either::construct(b != 0, fn0<Val>("s", 0, x), fn0<Fv>("f", 0, y)); });
+  }
+  // ---- either
+  if (wanted("eit_error_from_optional"))
+    for_values<fcppt::optional::object<Fv>>([&](fcppt::optional::object<Fv> const &o)
+    {
+      for (char const *c = cats3; *c; ++c)
+        record("eit_error_from_optional", std::string(1, *c), js(o), "", [&]
+        { return with_cat(*c, o, [&](auto &&a) { return fcppt::either::error_from_optional(FWD(a)); }); });
+    });
+  for_values<ED>([&](ED const &e)
+  {
+    if (wanted("eit_to_exception"))
+      for_tables<Val>(1, 100, rng_for("eit_to_exception"), [&](Table<Val> const &t)
+      {
+        for (char const *c = cats3; *c; ++c)
+          record_raw("eit_to_exception", std::string(1, *c), js(e), ex_tf(t), [&]
+          {
+            return outcome_js([&]
+            {
+              return with_cat(*c, e, [&](auto &&a) -> Val
+              {
+                return fcppt::either::to_exception(FWD(a), [&t](Fv f)
+                {
+                  log_call("mk", 0, js(f));
+                  return Exc{t.at({f.v}).v};
+                });
+              });
+            });
+          });
+      });
+    if (wanted("eit_output"))
+      record_raw("eit_output", "char", js(e), "", [&]
+      {
+        std::ostringstream s;
+        s << e;
+        return text_of(s.str());
+      });
+  });
+  if (wanted("eit_sequence_error"))
+    for_tables<UE>(1, 100, rng_for("eit_sequence_error"), [&](Table<UE> const &t)
+    {
+      for_seqs<Val>(sz.maxlen, [&](std::vector<Val> const &xs)
+      {
+        for (char const *c = cats3; *c; ++c)
+          record("eit_sequence_error", std::string(1, *c), js(xs), ex_tf(t), [&]
+          {
+            return with_cat(*c, xs, [&](auto &&a)
+            { return fcppt::either::sequence_error(FWD(a), fn1<UE>("f", 0, t)); });
+          });
+      });
+    });
+  // ---- variant: assignment between alternatives, references, output, four alternatives
+  auto const assign_records = [&](auto tag)
+  {
+    using V = typename decltype(tag)::type;
+    for_values<V>([&](V const &v)
+    {
+      for_values<V>([&](V const &w)
+      {
+        if (wanted("var_assign"))
+        {
+          record_raw("var_assign", "copy", js(v) + "," + js(w), "", [&]
+          {
+            V dst{v};
+            V const src{w};
+            dst = src;
+            return "{\"dst\":" + js(dst) + ",\"src_t\":" + std::to_string(src.is_invalid() ? 0 : src.type_index() + 1) + "}";
+          });
+          record_raw("var_assign", "move", js(v) + "," + js(w), "", [&]
+          {
+            V dst{v};
+            V src{w};
+            dst = std::move(src);
+            return "{\"dst\":" + js(dst) + ",\"src_t\":" + std::to_string(src.is_invalid() ? 0 : src.type_index() + 1) + "}";
+          });
+          record_raw("var_assign", "move-construct", js(v) + "," + js(w), "", [&]
+          {
+            V src{w};
+            V const dst{std::move(src)};
+            return "{\"dst\":" + js(dst) + ",\"src_t\":" + std::to_string(src.is_invalid() ? 0 : src.type_index() + 1) + "}";
+          });
+        }
+      });
+      if (wanted("var_output"))
+        record_raw("var_output", "char", js(v), "", [&]
+        {
+          std::ostringstream s;
+          s << v;
+          return text_of(s.str());
+        });
+    });
+  };
+  struct tag3 { using type = VD; };
+  struct tag4 { using type = VD4; };
+  assign_records(tag3{});
+  assign_records(tag4{});
+  for_values<VD4>([&](VD4 const &v)
+  {
+    if (wanted("var_holds_type"))
+    {
+      record("var_holds_type", "c", js(v), ",\"i\":1", [&] { return fcppt::variant::holds_type<A1>(v); });
+      record("var_holds_type", "c", js(v), ",\"i\":2", [&] { return fcppt::variant::holds_type<A2>(v); });
+      record("var_holds_type", "c", js(v), ",\"i\":3", [&] { return fcppt::variant::holds_type<A3>(v); });
+      record("var_holds_type", "c", js(v), ",\"i\":4", [&] { return fcppt::variant::holds_type<A4>(v); });
+    }
+    for (char const *c = cats3; *c; ++c)
+    {
+      if (wanted("var_to_optional"))
+      {
+        record("var_to_optional", std::string(1, *c), js(v), ",\"i\":1", [&] { return with_cat(*c, v, [&](auto &&a) { return fcppt::variant::to_optional<A1>(FWD(a)); }); });
+        record("var_to_optional", std::string(1, *c), js(v), ",\"i\":4", [&] { return with_cat(*c, v, [&](auto &&a) { return fcppt::variant::to_optional<A4>(FWD(a)); }); });
+      }
+    }
+    if (wanted("var_ref_write"))
+      for (int y = 0; y < N; ++y)
+      {
+        record_raw("var_ref_write", "", js(v), ",\"i\":2" + ex_d<Val>(y), [&]
+        {
+          VD4 w{v};
+          fcppt::optional::maybe_void(fcppt::variant::to_optional_ref<A2>(w), [y](fcppt::reference<A2> const r) { r.get() = A2(y); });
+          return js(w);
+        });
+        record_raw("var_ref_write", "", js(v), ",\"i\":4" + ex_d<Val>(y), [&]
+        {
+          VD4 w{v};
+          fcppt::optional::maybe_void(fcppt::variant::to_optional_ref<A4>(w), [y](fcppt::reference<A4> const r) { r.get() = A4(y); });
+          return js(w);
+        });
+      }
+    for_values<VD4>([&](VD4 const &w)
+    {
+      if (wanted("var_eq")) record("var_eq", "cc", js(v) + "," + js(w), "", [&] { return v == w; });
+      if (wanted("var_less")) record("var_less", "cc", js(v) + "," + js(w), "", [&] { return v < w; });
+    });
+  });
+  if (wanted("var_match"))
+  {
+    vj::Rng rng{rng_for("var_match4")};
+    for (long k = 0; k < sz.vis1; ++k)
+    {
+      Table<Val> const t1{table_random<Val>(1, rng)}, t2{table_random<Val>(1, rng)}, t3{table_random<Val>(1, rng)}, t4{table_random<Val>(1, rng)};
+      std::string const tabs = ",\"tf\":[" + t1.json() + "," + t2.json() + "," + t3.json() + "," + t4.json() + "]";
+      for_values<VD4>([&](VD4 const &v)
+      {
+        for (char const *c = cats3; *c; ++c)
+          record("var_match", std::string(1, *c), js(v), tabs, [&]
+          {
+            return with_cat(*c, v, [&](auto &&a)
+            {
+              return fcppt::variant::match(FWD(a), fn1<Val, A1>("f", 1, t1), fn1<Val, A2>("f", 2, t2), fn1<Val, A3>("f", 3, t3),
+                                           fn1<Val, A4>("f", 4, t4));
+            });
+          });
+      });
+    }
+  }
+  // ---- dynamic_cast_: every dynamic type x every order of the target types
+  if (wanted("var_dynamic_cast"))
+  {
+    auto const run = [&](base &obj, std::string const &castable)
+    {
+      auto const emit = [&](std::string const &types, auto const &r)
+      {
+        record_raw("var_dynamic_cast", "", "", ",\"types\":" + types + ",\"castable\":" + castable, [&]
+        {
+          if (!r.has_value()) return std::string{"{\"t\":\"none\"}"};
+          auto const &var = r.get_unsafe();
+          bool const same = fcppt::variant::apply([&obj](auto const &ref) { return dynamic_cast<base const *>(&ref.get()) == &obj; }, var);
+          return "{\"t\":\"some\",\"v\":{\"t\":" + std::to_string(var.type_index() + 1) + ",\"v\":" + (same ? "1" : "9") + "}}";
+        });
+      };
+      emit("[1,2]", fcppt::variant::dynamic_cast_<fcppt::mpl::list::object<d1, d2>, fcppt::cast::dynamic_fun>(obj));
+      emit("[2,1]", fcppt::variant::dynamic_cast_<fcppt::mpl::list::object<d2, d1>, fcppt::cast::dynamic_fun>(obj));
+      emit("[1]", fcppt::variant::dynamic_cast_<fcppt::mpl::list::object<d1>, fcppt::cast::dynamic_fun>(obj));
+      emit("[2]", fcppt::variant::dynamic_cast_<fcppt::mpl::list::object<d2>, fcppt::cast::dynamic_fun>(obj));
+    };
+    d1 o1;
+    d2 o2;
+    d3 o3;
+    d1child o4;
+    d12 o5;
+    run(o1, "[1]");
+    run(o2, "[2]");
+    run(o3, "[]");
+    run(o4, "[1]");
+    run(o5, "[1,2]");
+  }
+  // ---- monad::chain / monad::do_
+  if (wanted("monad_chain_opt") || wanted("monad_do_opt"))
+  {
+    vj::Rng rng{rng_for("monad_opt")};
+    for_values<OD>([&](OD const &o)
+    {
+      for (char const *c = cats3; *c; ++c)
+        if (wanted("monad_chain_opt"))
+          record("monad_chain_opt", std::string(1, *c), js(o), ",\"tf\":[]", [&] { return with_cat(*c, o, [&](auto &&a) { return fcppt::monad::chain(FWD(a)); }); });
+    });
+    for_tables<OD>(1, 100, rng_for("monad_opt1"), [&](Table<OD> const &k1)
+    {
+      for_tables<OD>(1, sz.maxlen >= 4 ? 64 : 16, rng_for("monad_opt2"), [&](Table<OD> const &k2)
+      {
+        Table<OD> const k3{table_random<OD>(1, rng)};
+        Table<OD> const l2{table_random<OD>(2, rng)};
+        Table<OD> const l3{table_random<OD>(3, rng)};
+        for_values<OD>([&](OD const &o)
+        {
+          for (char const *c = cats3; *c; ++c)
+          {
+            std::string const cat(1, *c);
+            if (wanted("monad_chain_opt"))
+            {
+              if (&k2 == &k2 && k2.codes == k1.codes) // once per k1
+                record("monad_chain_opt", cat, js(o), ",\"tf\":[" + k1.json() + "]", [&]
+                { return with_cat(*c, o, [&](auto &&a) { return fcppt::monad::chain(FWD(a), fn1<OD>("f", 1, k1)); }); });
+              record("monad_chain_opt", cat, js(o), ",\"tf\":[" + k1.json() + "," + k2.json() + "]", [&]
+              { return with_cat(*c, o, [&](auto &&a) { return fcppt::monad::chain(FWD(a), fn1<OD>("f", 1, k1), fn1<OD>("f", 2, k2)); }); });
+              record("monad_chain_opt", cat, js(o), ",\"tf\":[" + k1.json() + "," + k2.json() + "," + k3.json() + "]", [&]
+              {
+                return with_cat(*c, o, [&](auto &&a)
+                { return fcppt::monad::chain(FWD(a), fn1<OD>("f", 1, k1), fn1<OD>("f", 2, k2), fn1<OD>("f", 3, k3)); });
+              });
+            }
+            if (wanted("monad_do_opt"))
+            {
+              auto const f1 = [&k1](Val const &x) -> OD
+              {
+                log_call("f", 1, js(x));
+                return k1.at({x.v});
+              };
+              auto const f2 = [&l2](Val const &x, Val const &y) -> OD
+              {
+                log_call("f", 2, js(x) + "," + js(y));
+                return l2.at({x.v, y.v});
+              };
+              auto const f3 = [&l3](Val const &x, Val const &y, Val const &z) -> OD
+              {
+                log_call("f", 3, js(x) + "," + js(y) + "," + js(z));
+                return l3.at({x.v, y.v, z.v});
+              };
+              record("monad_do_opt", cat, js(o), ",\"tf\":[" + k1.json() + "," + l2.json() + "]", [&]
+              { return with_cat(*c, o, [&](auto &&a) { return fcppt::monad::do_(FWD(a), f1, f2); }); });
+              record("monad_do_opt", cat, js(o), ",\"tf\":[" + k1.json() + "," + l2.json() + "," + l3.json() + "]", [&]
+              { return with_cat(*c, o, [&](auto &&a) { return fcppt::monad::do_(FWD(a), f1, f2, f3); }); });
+            }
+          }
+        });
+      });
+    });
+  }
+  if (wanted("monad_chain_eit") || wanted("monad_do_eit"))
+  {
+    vj::Rng rng{rng_for("monad_eit")};
+    for_tables<ED>(1, 1000, rng_for("monad_eit1"), [&](Table<ED> const &k1)
+    {
+      Table<ED> const k2{table_random<ED>(1, rng)};
+      Table<ED> const l2{table_random<ED>(2, rng)};
+      for_values<ED>([&](ED const &e)
+      {
+        for (char const *c = cats3; *c; ++c)
+        {
+          std::string const cat(1, *c);
+          if (wanted("monad_chain_eit"))
+          {
+            record("monad_chain_eit", cat, js(e), ",\"tf\":[" + k1.json() + "]", [&]
+            { return with_cat(*c, e, [&](auto &&a) { return fcppt::monad::chain(FWD(a), fn1<ED>("f", 1, k1)); }); });
+            record("monad_chain_eit", cat, js(e), ",\"tf\":[" + k1.json() + "," + k2.json() + "]", [&]
+            { return with_cat(*c, e, [&](auto &&a) { return fcppt::monad::chain(FWD(a), fn1<ED>("f", 1, k1), fn1<ED>("f", 2, k2)); }); });
+          }
+          if (wanted("monad_do_eit"))
+            record("monad_do_eit", cat, js(e), ",\"tf\":[" + k1.json() + "," + l2.json() + "]", [&]
+            {
+              return with_cat(*c, e, [&](auto &&a)
+              {
+                return fcppt::monad::do_(FWD(a),
+                    [&k1](Val const &x) -> ED
+                    {
+                      log_call("f", 1, js(x));
+                      return k1.at({x.v});
+                    },
+                    [&l2](Val const &x, Val const &y) -> ED
+                    {
+                      log_call("f", 2, js(x) + "," + js(y));
+                      return l2.at({x.v, y.v});
+                    });
+              });
+            });
+        }
+      });
+    });
+  }
+}
 }
 
 int main(int argc, char **argv)
@@ -1089,6 +1670,7 @@ int main(int argc, char **argv)
   drive_optional(sz);
   drive_either(sz);
   drive_variant(sz);
+  drive_ext(sz);
   vj::close();
   std::fprintf(stderr, "c04_algebra: %ld records\n", g_records);
   return 0;
